@@ -17959,14 +17959,23 @@ func (lex *Lexer) Lex() *token.Token {
 		lex.te = (lex.p)
 		(lex.p)--
 		{
-			lex.ungetCnt(1)
-			{
-				lex.growCallStack()
+			if lex.te < lex.pe && isValidVarNameStart(lex.data[lex.te]) {
+				lex.ungetCnt(1)
 				{
-					lex.stack[lex.top] = 477
-					lex.top++
-					goto st498
+					lex.growCallStack()
+					{
+						lex.stack[lex.top] = 477
+						lex.top++
+						goto st498
+					}
 				}
+			}
+			lex.setTokenPosition(tkn)
+			tok = token.T_ENCAPSED_AND_WHITESPACE
+			{
+				(lex.p)++
+				lex.cs = 477
+				goto _out
 			}
 		}
 		goto st477
